@@ -466,7 +466,13 @@ impl SchemaExt for ObjectSchema {
       return to_rust_type_name(title);
     }
 
-    self.infer_variant_name(index)
+    // A label inferred from a property name is only pascal-cased: `@type`, `$id` or `1x` are not identifiers yet.
+    let label = self.infer_variant_name(index);
+    if syn::parse_str::<syn::Ident>(&label).is_ok() {
+      label
+    } else {
+      to_rust_type_name(&label)
+    }
   }
 
   fn infer_object_variant_name(&self) -> String {
